@@ -1736,6 +1736,51 @@ func (e *Engine) runHooks(st *State, fr *Frame, instr ssa.Instruction, key, when
 
 func lastSegKey(key string) string { return key }
 
+// hookSites: the number of call sites of fn a hook can fire at (static count, same keys as runHooks / callOrdinal).
+// A hook that can fire nowhere no longer binds to the code: its clause would silently stop being checked.
+func (e *Engine) hookSites(fn *ssa.Function, h *CallHook) int {
+	n := 0
+	for _, b := range fn.Blocks {
+		for _, in := range b.Instrs {
+			var cc *ssa.CallCommon
+			prefix := ""
+			switch c := in.(type) {
+			case *ssa.Call:
+				cc = &c.Call
+			case *ssa.Go:
+				cc = &c.Call
+				prefix = "go "
+			case *ssa.Defer:
+				cc = &c.Call
+				prefix = "defer "
+			default:
+				continue
+			}
+			if _, isB := cc.Value.(*ssa.Builtin); isB && !cc.IsInvoke() {
+				continue
+			}
+			var key string
+			if cc.IsInvoke() {
+				key = methodKey(cc.Value.Type(), cc.Method.Name())
+			} else if f := cc.StaticCallee(); f != nil {
+				key = keyOf(f)
+			} else {
+				key = "<dynamic func value>"
+			}
+			if h.Ord > 0 {
+				if strings.Contains(key, h.Callee) {
+					n++
+				}
+				continue
+			}
+			if h.Callee == "*" || strings.Contains(prefix+key, h.Callee) {
+				n++
+			}
+		}
+	}
+	return n
+}
+
 // ---------- summaries of side-effect-free callees ----------
 
 type summaryOut struct {
